@@ -45,7 +45,7 @@ import time
 from fractions import Fraction
 
 from ..engine.runner import BaseCheck, ShardResult
-from ..engine.loader import load_source
+from ..engine.loader import drop_interpreter_cache, load_source
 from ..engine import progen_c08 as G
 
 from fpy2 import strategies as S
@@ -318,6 +318,7 @@ def signature_base(spec, tags):
 
 class Check(BaseCheck):
     pid = 'C08'
+    max_tasks_per_worker = 1        # see runner: bounds what gmpy2's per-call Token leak can accumulate
     rule = ('every program of the loop grammar (progen_c08: families F W R E; all statement sequences up to the '
             'tier bound x headers x naming schemes x ambient contexts) x every strategy instance x every site '
             'selection (None, each index, each cursor) x every input length 0..9 (x k=1..4 for a variable factor). '
@@ -480,6 +481,7 @@ class Check(BaseCheck):
 
     # ---- one program --------------------------------------------------
     def check_program(self, r: ShardResult, p: G.Prog):
+        drop_interpreter_cache()     # else every transformed program of the shard stays alive (GBs in thorough)
         try:
             mod = load_source(p.src)
             f = mod.f
